@@ -39,6 +39,7 @@ def run(repo: Repo, tier: str, res: CheckResult, seed: int = 0) -> None:
     chaining(repo, res)
     recipe_order(repo, res)
     retort_as_provider(repo, res)
+    one_shot_recipes(repo, res)
     res.assumptions = list(ASSUMPTIONS)
 
 
@@ -253,6 +254,25 @@ def _route_handler_ok(repo: Repo, m: ModuleInfo, ci: ClassInfo, fn: ast.Function
             res.add(Finding("C09", "ROUTER.next-offset", m.rel, qual, norm(r),
                             f"route_handler must return the position after the matched item (`{idx_var} + 1`); "
                             "otherwise provide_from_next re-enters the same provider or skips one", r.lineno))
+    # table lookup key: a type hint that cannot be normalised matches no exact-origin checker (ExactOriginLSC returns False),
+    # so its placeholder key must be unequal to every possible table key -- only a fresh object() is
+    tries = [t for t in fn.body if isinstance(t, ast.Try) and any("normalize_type" in norm(b) for b in t.body)]
+    for t in tries:
+        for h in t.handlers:
+            for a in h.body:
+                if isinstance(a, ast.Assign):
+                    res.evaluated(f"router:{qual}:placeholder:{norm(a)}", True)
+                    v = a.value
+                    fresh = isinstance(v, ast.Call) and norm(v.func) == "object" and not v.args
+                    if isinstance(v, ast.Name):
+                        g = next((st.value for st in m.tree.body if isinstance(st, ast.Assign) and norm(st.targets[0]) == v.id), None)
+                        fresh = isinstance(g, ast.Call) and norm(g.func) == "object" and not g.args
+                    if not fresh:
+                        res.add(Finding("C09", "ROUTER.placeholder-is-a-key", m.rel, qual, norm(a),
+                                        f"for a type hint that cannot be normalised the table key falls back to `{norm(v)}`, which "
+                                        "is a legal origin (a provider registered for it sits in the grouped table): the grouped "
+                                        "lookup answers although the linear scan (ExactOriginLSC -> False) would not, so a later "
+                                        "matching provider is never asked", a.lineno))
     # after the loop: StopIteration
     after = fn.body[fn.body.index(loop) + 1:] if loop in fn.body else []
     if not any(isinstance(s, ast.Raise) and "StopIteration" in norm(s) for s in after):
@@ -548,6 +568,52 @@ def recipe_order(repo: Repo, res: CheckResult) -> None:
 
 
 # ------------------------------------------------------------------------------------------ (5) retort as provider
+def one_shot_recipes(repo: Repo, res: CheckResult) -> None:
+    """`recipe: Iterable[Provider]` may be a generator: every function that receives it must materialise it (tuple/list)
+    as its first and only use; any earlier use (validation loop, len, truth test) consumes it and the recipe becomes empty"""
+    n = 0
+    for ci in repo.all_classes():
+        if not repo.is_subclass(ci, "Cloneable"):
+            continue
+        m = ci.module
+        for mname, fn in ci.methods.items():
+            args = fn.args.args + fn.args.kwonlyargs
+            for a in args:
+                if a.arg != "recipe" or a.annotation is None or "Iterable" not in norm(a.annotation):
+                    continue
+                uses = sorted([x for x in ast.walk(fn) if isinstance(x, ast.Name) and x.id == "recipe" and isinstance(x.ctx, ast.Load)],
+                              key=lambda x: (x.lineno, x.col_offset))
+                if not uses:
+                    continue
+                n += 1
+                res.evaluated(f"one-shot:{ci.name}.{mname}", True)
+                consuming = []
+                for u in uses:
+                    p = m.parent(u)
+                    if isinstance(p, ast.Call) and norm(p.func) in ("tuple", "list") and p.args and p.args[0] is u:
+                        consuming.append(("materialise", u))
+                    elif isinstance(p, ast.keyword) or (isinstance(p, ast.Call) and u in p.args):
+                        consuming.append(("passed", u))      # handed over unchanged to another receiver: that one materialises
+                    elif isinstance(p, ast.IfExp) and p.test is u or isinstance(p, ast.If) and p.test is u:
+                        consuming.append(("truth", u))       # truth test of an iterator is always True, of a list by length
+                    else:
+                        consuming.append(("other", u))
+                kinds = [k for k, _ in consuming]
+                real = [k for k in kinds if k in ("materialise", "passed", "other")]
+                if len(real) > 1 and not (kinds.count("passed") == len(real)):
+                    u = consuming[1][1]
+                    res.add(Finding("C09", "ORDER.one-shot-recipe-used-twice", m.rel, f"{ci.name}.{mname}",
+                                    "; ".join(f"{k}:{norm(m.parent(x))[:40]}" for k, x in consuming),
+                                    "the `recipe` argument (Iterable[Provider], possibly a generator) is used more than once: the "
+                                    "first use exhausts it and the instance recipe silently becomes empty, so the builtin "
+                                    "providers answer instead of the user's", u.lineno))
+                elif real and real[0] == "other":
+                    u = consuming[0][1]
+                    res.add(Finding("C09", "ORDER.one-shot-recipe-used-twice", m.rel, f"{ci.name}.{mname}", norm(m.parent(u))[:80],
+                                    "the `recipe` argument is iterated without being materialised first", u.lineno))
+    res.count("ORDER.recipe-receivers", n, 3)
+
+
 def retort_as_provider(repo: Repo, res: CheckResult) -> None:
     m = repo.mod("retort/searching_retort")
     ci = m.classes.get("SearchingRetort")
